@@ -231,6 +231,27 @@ CHECKS = {
         technique="TLA+ specs (Gen/Eval/VM with EnvVars, Strict) model-checked with TLC; spec->impl replay through the "
                   "library and the ucg binary under controlled environments",
     ),
+    "C19": dict(
+        category="model_checking",
+        text="Stdlib.tla: reference definitions (written from the doc comments, docsite and std/tests) on TLA+ sequences for "
+             "lists.len/reverse/head/tail/enumerate/zip/slice/str_join, tuples.fields/values/iter/strip_nulls/has_fields, "
+             "strings.len/chars/split_on/split_at/substr/parse_int, functional.maybe and schema.shaped/any/all/base_type_of, "
+             "each yielding the set of admissible outcomes (value, must-fail, documented don't-care); the algebraic laws of "
+             "the statement (reverse involution/length, |zip|=min, slice inclusive, join(split(s,sep),sep)=s, substr/split_at "
+             "concatenation, i64 edge of parse_int, shaped reflexive/monotone ...) are TLC invariants over a generator "
+             "machine of calls: exhaustive for lists <=4 over 3 ids with all index pairs incl. boundaries, tuples <=3 incl. "
+             "NULL, strings <=4 over 4 characters, separators 1-2 (thorough: +1), simulation to 12/8/20. Every call is "
+             "refined (mixed-type values, ASCII+Unicode characters, plain/quoted names; seeded), bound in generated files "
+             "importing std/*.ucg, built with FileBuilder::build (strict) and compared with the prediction; a sample also "
+             "through `ucg build` + out json. Growth step: std/*.ucg are parsed by the harness, converted to Eval.tla's AST "
+             "and EVALUATED BY Eval.tla INSIDE TLC against the same reference (StdlibSrc.tla).",
+        design_ref="DESIGN.md §4.11, §5/C19",
+        note="Trusted: TLC, renderer/refinement/comparison in vp/c19.py, AST conversion in vp/stdsrc.py, harness build/parse, "
+             "python json. Don't-cares: reversed slice range, split_at/substr outside 0..len, parse_int without a leading "
+             "digit, partial-vs-exact matching of list elements in shaped; str_join on str/int/bool items only.",
+        technique="TLA+ reference spec (Stdlib.tla) with laws model-checked and simulated by TLC; spec->impl replay of every "
+                  "generated call; std sources evaluated by Eval.tla inside TLC (StdlibSrc.tla)",
+    ),
     "C20": dict(
         category="model_checking",
         text="Lsp.tla: the session machine of `ucg lsp` (open documents, workspace index, in-flight messages, outbox; "
